@@ -145,7 +145,7 @@ template <class C> void Exec<C>::exec_parse(int i, const Op& op, OpOut& o) {
         if (!ok) { o.aborted = true; return; }
         o.rc = rc; o.eff_opt = entry;
         if (m.kind == MK_INCOMPLETE) {
-            if (rc != URI_ERROR_MEMORY_MANAGER_INCOMPLETE) violate(V_WRONG_RC, "parse with an incomplete manager returned " + std::to_string(rc), false);
+            if (rc != URI_ERROR_MEMORY_MANAGER_INCOMPLETE) violate(V_ALLOC_BEFORE_REJECT, "parse with an incomplete manager returned " + std::to_string(rc), false);
             if (outs_tmp_reqs || outs_tmp_frees) violate(V_ALLOC_BEFORE_REJECT, "parse with an incomplete manager used the manager before rejecting it", false);
             o.digest = "rejected"; sl.state = S_EMPTY; return;
         }
@@ -190,9 +190,9 @@ template <class C> void Exec<C>::exec_parse(int i, const Op& op, OpOut& o) {
         // the output structure may be passed to the free function, even repeatedly
         int refree = op.refree + (fired ? 1 : 0);
         if (refree > 0) {
-            int f0 = (int)g.hs.frees;
+            unsigned long long f0 = g.cur->released_total;   // per task: other tasks release their own blocks meanwhile
             if (!free_slot(i, d, 1, refree)) { o.aborted = true; return; }
-            if ((int)g.hs.frees != f0) violate(V_DOUBLE_FREE, "freeing the output structure of a failed parse released something", false);
+            if (g.cur->released_total != f0) violate(V_DOUBLE_FREE, "freeing the output structure of a failed parse released something", false);
         }
         if (!(attempt == 0 && fired)) return;
         // bounded recovery: same call again, faults off
@@ -209,7 +209,7 @@ template <class C> void Exec<C>::exec_resolve(int i, const Op& op, OpOut& o, boo
     MgrInst& m = mgr_of(op.mgr);
     int entry = op.entry < 0 ? 0 : op.entry % (add ? 3 : 2);
     if (m.kind != MK_LIBC) entry = add ? 2 : 1;
-    int opt = add ? (entry == 0 ? 0 : (op.opt & 1)) : (op.opt & 1);
+    int opt = add ? (entry == 0 ? 0 : (op.opt & 1)) : (op.opt > 1 || op.opt < 0 ? op.opt : (op.opt & 1));   // reference creation: UriBool is an int, callers pass any truthy value
     USlot& sl = us[d];
     Uri* du = sl.u; const Uri* ru = us[r].u; const Uri* bu = us[b].u;
     for (int attempt = 0; attempt < 2; attempt++) {
@@ -224,8 +224,8 @@ template <class C> void Exec<C>::exec_resolve(int i, const Op& op, OpOut& o, boo
                 else if (entry == 1) rc = A::AddBaseUriEx(du, ru, bu, (UriResolutionOptions)opt);
                 else rc = A::AddBaseUriExMm(du, ru, bu, (UriResolutionOptions)opt, m.table);
             } else {
-                if (entry == 0) rc = A::RemoveBaseUri(du, ru, bu, opt ? URI_TRUE : URI_FALSE);
-                else rc = A::RemoveBaseUriMm(du, ru, bu, opt ? URI_TRUE : URI_FALSE, m.table);
+                if (entry == 0) rc = A::RemoveBaseUri(du, ru, bu, (UriBool)opt);
+                else rc = A::RemoveBaseUriMm(du, ru, bu, (UriBool)opt, m.table);
             }
         });
         unprotect(pr);
@@ -235,7 +235,7 @@ template <class C> void Exec<C>::exec_resolve(int i, const Op& op, OpOut& o, boo
         o.rc = rc; o.eff_opt = opt;
         if (snapshot(ru) != sr || snapshot(bu) != sb) violate(V_CONST_ARG_CHANGED, std::string(add ? "resolution" : "reference creation") + " modified a read-only operand", false);
         if (m.kind == MK_INCOMPLETE) {
-            if (rc != URI_ERROR_MEMORY_MANAGER_INCOMPLETE) violate(V_WRONG_RC, "call with an incomplete manager returned " + std::to_string(rc), false);
+            if (rc != URI_ERROR_MEMORY_MANAGER_INCOMPLETE) violate(V_ALLOC_BEFORE_REJECT, "call with an incomplete manager returned " + std::to_string(rc), false);
             if (outs_tmp_reqs || outs_tmp_frees) violate(V_ALLOC_BEFORE_REJECT, "call with an incomplete manager used the manager before rejecting it", false);
             o.digest = "rejected"; sl.state = S_EMPTY; return;
         }
@@ -244,6 +244,7 @@ template <class C> void Exec<C>::exec_resolve(int i, const Op& op, OpOut& o, boo
             sl.state = S_VALID; sl.mgr = op.mgr; sl.owned = false; sl.texts.clear(); sl.deps.clear(); sl.ever.clear(); sl.producer = i;
             sl.path_origin = sl.host_origin = op.kind;
             inherit(sl, us[r], r); inherit(sl, us[b], b);
+            sl.survivor = us[r].survivor || us[b].survivor;   // derived from what a failed call left behind
             o.digest = view(du).str();
             if (du->owner) { sl.owned = true; sl.texts.clear(); sl.deps.clear(); }   // not today's behaviour, but nothing in the properties forbids a result that owns copies
             event("op %d -> ok %s", i, o.digest.c_str());
@@ -298,7 +299,7 @@ template <class C> void Exec<C>::exec_inplace(int i, const Op& op, OpOut& o, boo
     if (!ok) { o.aborted = true; return; }
     o.rc = rc; o.eff_opt = (int)mask;
     if (reject) {
-        if (rc != URI_ERROR_MEMORY_MANAGER_INCOMPLETE) violate(V_WRONG_RC, "call with an incomplete manager returned " + std::to_string(rc), false);
+        if (rc != URI_ERROR_MEMORY_MANAGER_INCOMPLETE) violate(V_ALLOC_BEFORE_REJECT, "call with an incomplete manager returned " + std::to_string(rc), false);
         if (outs_tmp_reqs || outs_tmp_frees) violate(V_ALLOC_BEFORE_REJECT, "call with an incomplete manager used the manager before rejecting it", false);
         o.digest = "rejected"; return;
     }
@@ -325,6 +326,15 @@ template <class C> void Exec<C>::exec_inplace(int i, const Op& op, OpOut& o, boo
     if (outs_tmp_fired && rc != URI_ERROR_MALLOC) violate(V_WRONG_RC, "an allocation request failed but the call returned " + std::to_string(rc) + " instead of the out-of-memory code", false);
     if (!outs_tmp_fired) violate(V_WRONG_RC, std::string(normalize ? "normalize" : "make-owner") + " failed with " + std::to_string(rc) + " although no allocation request failed", false);
     mark_dependents_stale(s);
+    if (op.keep && outs_tmp_fired) {
+        // the caller goes on using the object the failed call left behind (it is still a URI the library produced)
+        UriView after = view(u);
+        if (after.owner && !sl.owned) { sl.owned = true; sl.texts.clear(); sl.deps.clear(); }
+        sl.survivor = true;
+        o.digest += " kept {" + after.str() + "}";
+        event("op %d -> object kept in use: %s", i, after.str().c_str());
+        return;
+    }
     after_failure_cleanup(i, s, false);
 }
 
@@ -569,7 +579,7 @@ template <class C> void Exec<C>::exec_query(int i, const Op& op, OpOut& o) {
                 if (!ok) { unprotect(pr); o.aborted = true; return; }
                 o.rc = rc;
                 if (m.kind == MK_INCOMPLETE) {
-                    if (rc != URI_ERROR_MEMORY_MANAGER_INCOMPLETE) violate(V_WRONG_RC, "compose-malloc with an incomplete manager returned " + std::to_string(rc), false);
+                    if (rc != URI_ERROR_MEMORY_MANAGER_INCOMPLETE) violate(V_ALLOC_BEFORE_REJECT, "compose-malloc with an incomplete manager returned " + std::to_string(rc), false);
                     if (outs_tmp_reqs || outs_tmp_frees) violate(V_ALLOC_BEFORE_REJECT, "compose-malloc with an incomplete manager used the manager before rejecting it", false);
                     unprotect(pr); o.digest = "rejected"; return;
                 }
@@ -631,7 +641,7 @@ template <class C> void Exec<C>::exec_query(int i, const Op& op, OpOut& o) {
             if (!ok) { o.aborted = true; return; }
             o.rc = rc;
             if (m.kind == MK_INCOMPLETE) {
-                if (rc != URI_ERROR_MEMORY_MANAGER_INCOMPLETE) violate(V_WRONG_RC, "dissect with an incomplete manager returned " + std::to_string(rc), false);
+                if (rc != URI_ERROR_MEMORY_MANAGER_INCOMPLETE) violate(V_ALLOC_BEFORE_REJECT, "dissect with an incomplete manager returned " + std::to_string(rc), false);
                 if (outs_tmp_reqs || outs_tmp_frees) violate(V_ALLOC_BEFORE_REJECT, "dissect with an incomplete manager used the manager before rejecting it", false);
                 o.digest = "rejected"; return;
             }
